@@ -468,6 +468,8 @@ class MakeTuple(AsExtOp, _PartialOp):
 
     def _set_in_types(self, types: tys.TypeRow) -> None:
         self._types = types
+        # the cached `ext_op` (and with it the signature) was computed from the old types
+        self.__dict__.pop("ext_op", None)
 
     def __repr__(self) -> str:
         return "MakeTuple" + (f"({self._types})" if self._types is not None else "")
@@ -521,6 +523,7 @@ class UnpackTuple(AsExtOp, _PartialOp):
         assert isinstance(t, tys.Sum), f"Expected unary Sum, got {t}"
         (row,) = t.variant_rows
         self._types = row
+        self.__dict__.pop("ext_op", None)
 
     def __repr__(self) -> str:
         return "UnpackTuple" + (f"({self._types})" if self._types is not None else "")
@@ -1378,6 +1381,7 @@ class Noop(AsExtOp, _PartialOp):
     def _set_in_types(self, types: tys.TypeRow) -> None:
         (t,) = types
         self._type = t
+        self.__dict__.pop("ext_op", None)
 
     def __repr__(self) -> str:
         return "Noop" + (f"({self._type})" if self._type is not None else "")
